@@ -3,12 +3,20 @@ import hashlib
 import json
 import os
 import random
+import re
 import sys
 import time
 
 sys.path.insert(0, os.path.dirname(os.path.abspath(__file__)))
 import vlib
 from vlib import log, Inconclusive
+
+class ProcessKilled(Exception):
+    """An injected node panic escaped every recover of the framework and killed the test process."""
+    def __init__(self, case_id, output):
+        Exception.__init__(self, "process killed by the panic injected in " + case_id)
+        self.case_id, self.output = case_id, output
+
 
 HARNESS_OVERLAY = {"compose/zz_verif_engine_test.go": os.path.join(vlib.HARNESS, "compose", "zz_verif_engine_test.go")}
 
@@ -44,7 +52,7 @@ def gen_family(name, consts, *, timeout=900, workers=8, simulate=None, depth=Non
 
 
 def decorate(scs, *, seed, calls_choices=(("invoke",), ("stream",), ("invoke", "stream"), ("stream", "invoke")),
-             snode_frac=0.35, strm_branch_frac=0.3, noid_frac=0.0, state_frac=0.0, fail_variants=False):
+             snode_frac=0.35, strm_branch_frac=0.3, noid_frac=0.0, state_frac=0.0, fail_variants=False, state_variants=False):
     """Secondary dimensions that TLC does not enumerate are spread deterministically (seeded) over the scenarios."""
     rnd = random.Random(seed)
     for i, sc in enumerate(scs):
@@ -57,6 +65,18 @@ def decorate(scs, *, seed, calls_choices=(("invoke",), ("stream",), ("invoke", "
             sc["noid"] = True
         if state_frac and not sc.get("state") and rnd.random() < state_frac:
             sc["state"] = True
+        if state_variants:
+            # C11: every scenario is stateful; post-handlers, value-modifying handlers, a state modifier at some resume, stateful inner graphs
+            sc["state"] = True
+            sc["post"] = rnd.random() < 0.6
+            sc["hmod"] = rnd.random() < 0.5
+            if rnd.random() < 0.3:
+                sc["smod"] = 1 + rnd.randrange(2)
+            for inner in (sc.get("sub") or {}).values():
+                if rnd.random() < 0.6:
+                    inner["state"] = True
+                    inner["post"] = rnd.random() < 0.5
+                    inner["hmod"] = rnd.random() < 0.5
         if fail_variants and sc.get("fail"):
             # spread the failure kinds TLC does not enumerate: a second failing node in parallel, cancellation from inside a node
             r = rnd.random()
@@ -77,6 +97,10 @@ def replay(scs, *, race=False, timeout=1200, repo=None):
             fh.write(json.dumps(sc, separators=(",", ":")) + "\n")
     code, output, wall = vlib.go_test("compose", HARNESS_OVERLAY, "^TestVerifEngine$", race=race, timeout=timeout, repo=repo, args=["-test.v"],
                                       env={"VERIF_CASES": cases, "VERIF_OUT": out})
+    if code != 0:
+        m = re.search(r"panic: verif injected panic at (\S+?)::", output)
+        if m and "[recovered]" not in output[m.start():m.start() + 200]:
+            raise ProcessKilled(m.group(1), output[-2500:])
     vlib.go_must_run(code, output, "engine replay")
     if "VERIF-ENGINE scenarios=%d" % len(scs) not in output:
         raise Inconclusive("engine replay: harness did not report all scenarios\n" + output[-3000:])
